@@ -231,12 +231,14 @@ fn exec_object(op: &Op, concrete: &'static str, sels: &[Sel], vars: &BTreeMap<&s
     }
     results.into_iter().map(Val::Obj).collect()
 }
-fn responses(op: &Op) -> BTreeSet<Val> {
+fn responses(op: &Op, concretes: &[&'static str], sels: &[Sel]) -> BTreeSet<Val> {
     let mut all = BTreeSet::new();
     let nv = op.vars.len();
     for mask in 0..(1usize << nv) {
         let vars: BTreeMap<&str, bool> = op.vars.iter().enumerate().map(|(i, v)| (*v, mask & (1 << i) != 0)).collect();
-        all.extend(exec_object(op, "Query", &op.sel, &vars, 0));
+        for c in concretes {
+            all.extend(exec_object(op, c, sels, &vars, 0));
+        }
     }
     all
 }
@@ -246,8 +248,8 @@ fn responses(op: &Op) -> BTreeSet<Val> {
 /// per selection set, NOT one assignment for the whole response.  Keys that the selection set can never produce for the
 /// object's concrete type are ignored: TypeScript object types are open, so no printed type can exclude them; keys it
 /// CAN produce (under some variable assignment) must be exactly those of the assignment chosen for that selection set.
-fn conforms(op: &Op, v: &Val) -> bool {
-    conf_obj(op, v, "Query", &op.sel)
+fn conforms(op: &Op, v: &Val, concretes: &[&'static str], sels: &[Sel]) -> bool {
+    concretes.iter().any(|c| conf_obj(op, v, c, sels))
 }
 fn key_universe(op: &Op, concrete: &str, sels: &[Sel]) -> BTreeSet<String> {
     let nv = op.vars.len();
@@ -439,6 +441,8 @@ fn member(v: &Val, t: &Ts) -> bool {
         (Ts::Never, _) => false,
         (Ts::Scalar(n), Val::Scalar(k)) => n == k,
         (Ts::Lit(s), Val::Str(x)) => s == x,
+        // a concrete string (a type name) is a value of the scalar alias String = string
+        (Ts::Scalar(n), Val::Str(_)) => n == "String",
         (Ts::Array(e), Val::List(xs)) => xs.iter().all(|x| member(x, e)),
         (Ts::Obj { req, never }, Val::Obj(o)) => req.iter().all(|(k, t)| o.get(k).map(|x| member(x, t)).unwrap_or(false)) && never.iter().all(|k| !o.contains_key(k)),
         _ => false,
@@ -591,6 +595,9 @@ fn operations(thorough: bool) -> Vec<(String, Op)> {
     add("include variable inside a named fragment spread twice", vec!["a"], vec![fs("user", vec![Sel::Spread { name: "F", dirs: Dirs::default() }]), fs("users", vec![Sel::Spread { name: "F", dirs: Dirs::default() }])], vec![("F", "User", vec![f("id"), with(f("name"), incl(a()))])]);
     add("variables inside nested named fragments and on the spread", vec!["a", "b"], vec![fs("user", vec![with(Sel::Spread { name: "A", dirs: Dirs::default() }, incl(b()))])], vec![("A", "User", vec![f("id"), Sel::Spread { name: "B", dirs: Dirs::default() }]), ("B", "User", vec![with(f("name"), skip(a()))])]);
     add("variable inside a fragment on an abstract type", vec!["a"], vec![fs("node", vec![Sel::Spread { name: "N", dirs: Dirs::default() }])], vec![("N", "Node", vec![f("id"), with(on("Post", vec![f("title")]), skip(a()))])]);
+    add("__typename under a variable", vec!["a"], vec![fs("user", vec![with(f("__typename"), skip(a())), f("id")])], vec![]);
+    add("aliased __typename under a variable, __typename under literals", vec!["a"], vec![fs("thing", vec![with(alias("kind", f("__typename")), incl(a())), on("User", vec![f("name")])]), with(f("__typename"), skip(Cond::Lit(true))), with(alias("t2", f("__typename")), incl(Cond::Lit(true)))], vec![]);
+    add("__typename under a variable inside a fragment on an interface", vec!["a"], vec![fs("node", vec![Sel::Spread { name: "N", dirs: Dirs::default() }])], vec![("N", "Node", vec![with(f("__typename"), incl(a())), f("id")])]);
     // abstract types
     add("union with inline fragments", vec![], vec![fs("thing", vec![f("__typename"), on("User", vec![f("name")]), on("Post", vec![f("title")])])], vec![]);
     add("union list, one branch only", vec![], vec![fs("things", vec![on("User", vec![f("id")])])], vec![]);
@@ -637,7 +644,7 @@ fn main() {
     let mut failures = vec![];
     let mut per_family: BTreeMap<String, usize> = BTreeMap::new();
     let mut evaluations = 0usize;
-    let (mut n_resp, mut n_mut) = (0usize, 0usize);
+    let (mut n_resp, mut n_mut, mut n_frag) = (0usize, 0usize, 0usize);
     for (i, ((label, op), r)) in ops.iter().zip(results.iter()).enumerate() {
         let Some((out, ts)) = r else { continue };
         evaluations += 1;
@@ -652,62 +659,78 @@ fn main() {
             continue;
         }
         let ts = ts.clone().unwrap_or_default();
-        let Some(st) = ts.find("type QResult = ") else {
-            fail("harness: no QResult type in the declaration file".into(), String::new(), ts.chars().take(300).collect());
-            continue;
-        };
-        let body = &ts[st + "type QResult = ".len()..];
-        let end = body.find(";\n\ntype QVariables").or_else(|| body.find(";\n\n")).unwrap_or(body.len());
-        let text = &body[..end];
-        let mut p = P { c: text.chars().collect(), i: 0, _s: text };
-        let ty = match p.union() {
-            Ok(t) => t,
-            Err(e) => {
-                fail("harness: the result type is outside the TypeScript subset this reader understands".into(), e, text.chars().take(600).collect());
-                continue;
-            }
-        };
-        let rs = responses(op);
-        n_resp += rs.len();
-        if let Some(r) = rs.iter().find(|r| !conforms(op, r)) {
-            fail("harness: the enumerator and the validator of the oracle disagree".into(), show_val(r), String::new());
-            continue;
+        // the operation's Result type and the exported type of every fragment of the document ("objects that match the fragment")
+        let mut targets: Vec<(String, Vec<&'static str>, &[Sel])> = vec![("type QResult = ".to_string(), vec!["Query"], &op.sel)];
+        for (name, cond, sels) in &op.frags {
+            targets.push((format!("export type {name} = "), possible_types(cond), sels));
         }
-        // C01
-        let mut bad = false;
-        for r in &rs {
-            if !member(r, &ty) {
-                fail("C01: a response the operation can produce is not admitted by the result type".into(), format!("response {}", show_val(r)), text.chars().take(900).collect());
-                bad = true;
+        for (ti, (marker, concretes, sels)) in targets.iter().enumerate() {
+            let what = if ti == 0 { "result type".to_string() } else { "fragment type".to_string() };
+            let Some(st) = ts.find(marker.as_str()) else {
+                fail(format!("harness: no `{}` in the declaration file", marker.trim()), String::new(), ts.chars().take(300).collect());
+                break;
+            };
+            let body = &ts[st + marker.len()..];
+            let end = body.find(";\n\n").unwrap_or(body.len());
+            let text = &body[..end];
+            let mut p = P { c: text.chars().collect(), i: 0, _s: text };
+            let ty = match p.union() {
+                Ok(t) => t,
+                Err(e) => {
+                    fail(format!("harness: the {what} is outside the TypeScript subset this reader understands"), e, text.chars().take(600).collect());
+                    break;
+                }
+            };
+            let rs = responses(op, concretes, sels);
+            n_resp += rs.len();
+            if ti > 0 {
+                n_frag += 1;
+            }
+            if let Some(r) = rs.iter().find(|r| !conforms(op, r, concretes, sels)) {
+                fail("harness: the enumerator and the validator of the oracle disagree".into(), show_val(r), String::new());
                 break;
             }
-        }
-        if bad {
-            continue;
-        }
-        // C02
-        let mut pool = BTreeMap::new();
-        for r in &rs {
-            fill_pool(r, "", &mut pool);
-        }
-        let mut seen = BTreeSet::new();
-        'outer: for r in &rs {
-            let mut ms = vec![];
-            mutations(r, "", &pool, &mut ms, &|v| v);
-            for (how, m) in ms {
-                if !seen.insert(m.clone()) || conforms(op, &m) {
-                    continue;
+            // C01
+            let mut bad = false;
+            for r in &rs {
+                if !member(r, &ty) {
+                    fail(format!("C01: a response the operation can produce is not admitted by the {what}"), format!("{}response {}", if ti == 0 { String::new() } else { format!("{}: ", marker.trim()) }, show_val(r)), text.chars().take(900).collect());
+                    bad = true;
+                    break;
                 }
-                n_mut += 1;
-                if member(&m, &ty) {
-                    let kind = how.rsplit(": ").next().unwrap_or("").split(" to ").next().unwrap_or("").to_string();
-                    fail(format!("C02: the result type admits a value no execution can return ({kind})"), format!("{how}: {} (from the response {})", show_val(&m), show_val(r)), text.chars().take(900).collect());
-                    break 'outer;
+            }
+            if bad {
+                break;
+            }
+            // C02
+            let mut pool = BTreeMap::new();
+            for r in &rs {
+                fill_pool(r, "", &mut pool);
+            }
+            let mut seen = BTreeSet::new();
+            'outer: for r in &rs {
+                let mut ms = vec![];
+                mutations(r, "", &pool, &mut ms, &|v| v);
+                for (how, m) in ms {
+                    if !seen.insert(m.clone()) || conforms(op, &m, concretes, sels) {
+                        continue;
+                    }
+                    n_mut += 1;
+                    if member(&m, &ty) {
+                        let kind = how.rsplit(": ").next().unwrap_or("").split(" to ").next().unwrap_or("").to_string();
+                        fail(format!("C02: the {what} admits a value no execution can return ({kind})"), format!("{}{how}: {} (from the response {})", if ti == 0 { String::new() } else { format!("{}: ", marker.trim()) }, show_val(&m), show_val(r)), text.chars().take(900).collect());
+                        bad = true;
+                        break 'outer;
+                    }
                 }
+            }
+            if bad {
+                break;
             }
         }
     }
     per_family.insert("operations".into(), evaluations);
+    per_family.insert("exported fragment types checked".into(), n_frag);
     per_family.insert("responses enumerated (C01 membership checks)".into(), n_resp);
     per_family.insert("distinct non-responses tried (C02 non-membership checks)".into(), n_mut);
     let samples: Vec<String> = ops.iter().enumerate().filter(|(i, _)| i % (ops.len() / 6).max(1) == 2).take(6).map(|(i, (l, o))| format!("[#{i} {l}] {}", show_op(o).replace('\n', " "))).collect();
